@@ -375,6 +375,10 @@ func (l *Ledger) runModel(c *ContractInfo, caller, self, token common.Address, v
 		}
 		ok := l.simCall(self, target, Native, inner, data[64:], false, depth+1)
 		return ok || swallow
+	case CRepeat:
+		return l.modelRepeat(self, data, depth)
+	case CVault:
+		return l.modelVault(self, data)
 	}
 	return true
 }
